@@ -130,10 +130,11 @@ func (s *String) ReadFrom(r io.Reader) (n int64, err error) {
 	}
 
 	bs := make([]byte, l)
-	if _, err := io.ReadFull(r, bs); err != nil {
+	read, err := io.ReadFull(r, bs)
+	n += int64(read)
+	if err != nil {
 		return n, err
 	}
-	n += int64(l)
 
 	*s = String(bs)
 	return n, nil
